@@ -63,9 +63,14 @@ def one(rec, label, design, spice):
 
 def flags(design) -> dict:
     """Witness flags naming the mechanism classes a design touches (used by known-finding predicates)."""
-    f = {"pref_to_slice_or_concat_port": False}
+    f = {"pref_to_slice_or_concat_port": False, "noconn_on_array_bundle_port": False}
     for m in design["modules"]:
         by = {i["name"]: i for i in m["insts"]}
+        for i in m["insts"]:
+            if i.get("kind") == "array" and i.get("n", 1) > 1:
+                _, bp = refsem.iface(design, i["of"])
+                if any(e[0] == "nc" and port in bp for port, e in i["conns"].items()):
+                    f["noconn_on_array_bundle_port"] = True
 
         def scan(e):
             if e[0] == "pref":
